@@ -146,7 +146,7 @@ def check_seq(prop, tier, seed):
         # ---- 2. histories generated from KBSeq, run on every engine
         n = 160 if quick else 2000
         if prop == "C13":
-            n = 48 if quick else 600
+            n = 48 if quick else 160     # (600 histories x 120 border sets x 5 engines ran into the 30 min limit of the driver)
         plain = seq_gen(work, dict(SEQ_CONSTS, MaxOps=5 if quick else 7, **G), seed, n)
         star = seq_gen(work, dict(SEQ_CONSTS, MaxOps=4, Vals={"x", "tombstone*"}, OpKinds={"create", "update", "delete"}), seed + 1, n // 4, name="genstar") if prop == "C03" else []
         three = seq_gen(work, dict(SEQ_CONSTS, Keys={1, 2, 3}, MaxOps=5, **G), seed + 2, n // 4, name="gen3")
@@ -163,7 +163,7 @@ def check_seq(prop, tier, seed):
                             ("Event records", evh)):
             if not behs:
                 continue
-            fl = flags if prop != "C13" else ["-seed", str(seed), "-sets", "30" if quick else "120"]
+            fl = flags if prop != "C13" else ["-seed", str(seed), "-sets", "30" if quick else "80"]
             if title.startswith("1 key"):
                 fl = ["-seed", str(seed), "-frac", "0.05", "-finalfrac", "1.0"]
             if title.startswith("Event"):
